@@ -25,7 +25,13 @@ def remove_labware(spec, idx):
                 return None
             if op[k] > idx:
                 op[k] -= 1
+    for lab in s["world"]["labware"]:
+        if lab.get("replica_of") == idx:
+            return None
     del s["world"]["labware"][idx]
+    for lab in s["world"]["labware"]:
+        if isinstance(lab.get("replica_of"), int) and lab["replica_of"] > idx:
+            lab["replica_of"] -= 1
     if not s["world"]["labware"]:
         return None
     return s
